@@ -30,6 +30,12 @@ fn main() {
         return;
     }
     #[cfg(not(kani))]
+    if args.len() >= 4 && args[1] == "--m-c14" {
+        let bad = rvh::mreplay::m_c14(&args[2], args[3].parse().unwrap());
+        println!("{}", if bad { "MISMATCH" } else { "OK" });
+        return;
+    }
+    #[cfg(not(kani))]
     if args.len() >= 8 && args[1] == "--m-c15" {
         let p: Vec<usize> = args[3..8].iter().map(|x| x.parse().unwrap()).collect();
         let bad = rvh::mreplay::m_c15(p[0], p[1], p[2], p[3], p[4]);
